@@ -908,6 +908,11 @@ pub fn gen_c14(rng: &mut Prng, thorough: bool, out: &mut Out) {
             out.case(g1, &format!("egp_verify q{} q{} s{} s{} s{} q{}", hs(&c1), hs(&c2), hs(&mp), hs(&bp), hs(&ch), hs(&sk)));
             out.case(g1, &format!("egp_verify_and_decrypt q{} q{} s{} s{} s{} s{}", hs(&c1), hs(&c2), hs(&mp), hs(&bp), hs(&ch), hs(&sk)));
             out.case(g1, &format!("egp_verify_and_decrypt q{} q{} s{} s{} s{} s00", hs(&c1), hs(&c2), hs(&mp), hs(&bp), hs(&ch)));
+            // a proof chosen so that the verifier's recomputed first commitment is the identity:
+            // c1 = b*P, blinder_proof = b*challenge  =>  r1 = c1*(-challenge) + P*blinder_proof = 0
+            let b = rng.scalar();
+            out.case(g1, &format!("egp_verify q{} q{} s{} s{} s{} q{}", hs(&b), hs(&c2), hs(&mp), hs(&(b * ch)), hs(&ch), hs(&sk)));
+            out.case(g1, &format!("egp_verify_and_decrypt q{} q{} s{} s{} s{} s{}", hs(&b), hs(&c2), hs(&mp), hs(&(b * ch)), hs(&ch), hs(&sk)));
             // threshold decryption key
             let t = 2 + i % 3;
             let coeffs: Vec<RScalar> = std::iter::once(sk).chain((1..t).map(|_| rng.scalar())).collect();
@@ -1342,6 +1347,12 @@ pub fn gen_c17(rng: &mut Prng, thorough: bool, out: &mut Out) {
                 out.case(g1, &format!("skenum_from_be x{}", hx(&b)));
                 out.case(g1, &format!("bytes_rt wskenum x{}", hx(&b)));
             }
+        }
+        // ElGamal proofs whose recomputed commitment is the identity (prover-chosen values)
+        for _ in 0..2 {
+            let (b, c2, mp, ch, k) = (rng.scalar(), rng.scalar(), rng.scalar(), rng.scalar(), rng.scalar());
+            out.case(g1, &format!("egp_verify q{} q{} s{} s{} s{} q{}", hs(&b), hs(&c2), hs(&mp), hs(&(b * ch)), hs(&ch), hs(&k)));
+            out.case(g1, &format!("egp_verify_and_decrypt q{} q{} s{} s{} s{} s{}", hs(&b), hs(&c2), hs(&mp), hs(&(b * ch)), hs(&ch), hs(&k)));
         }
         // empty and one-element lists through every list-consuming call
         for op in ["sig_from_shares", "pk_from_shares", "sk_combine", "scdk_from_shares", "egdk_from_shares", "multi_from_sigs", "agg_from_sigs", "multi_pk"] {
